@@ -121,7 +121,7 @@ theorem recover_closed (R : ViewRel) (s : PState) (fs : Fs) (ro : Bool) (h : Inv
 /-- C07: after any history that ends closed, `Open` — read-write or read-only — succeeds and
     finds what the commits before the close wrote. -/
 theorem C07_reopen_same (R : ViewRel) (c : Cfg) (h : List Sched) (ro : Bool)
-    (hok : HistOk R (MState.init c).p h)
+    (hok : SchedHistOk R (MState.init c).p h)
     (hc : ((MState.init c).exec h).p.curOpen = false) (hi : ((MState.init c).exec h).p.imm = []) :
     ∃ r, recover ro (crashKill ((MState.init c).exec h).fs) = .ok r ∧
       R.r r.entries (txnsEnts (((MState.init c).exec h).p.commits.take ((MState.init c).exec h).p.done)) := by
@@ -134,7 +134,7 @@ theorem C07_reopen_same (R : ViewRel) (c : Cfg) (h : List Sched) (ro : Bool)
     `h2` (handing the memtable to the flusher, flusher steps) complete no further commit, the
     re-opened database reads like the open one did after `h1`. -/
 theorem C07_same_as_before (R : ViewRel) (c : Cfg) (h1 h2 : List Sched) (ro : Bool)
-    (hok : HistOk R (MState.init c).p (h1 ++ h2))
+    (hok : SchedHistOk R (MState.init c).p (h1 ++ h2))
     (hc : ((MState.init c).exec (h1 ++ h2)).p.curOpen = false) (hi : ((MState.init c).exec (h1 ++ h2)).p.imm = [])
     (hd : ((MState.init c).exec (h1 ++ h2)).p.done = ((MState.init c).exec h1).p.done)
     (hcm : ((MState.init c).exec (h1 ++ h2)).p.commits = ((MState.init c).exec h1).p.commits) :
@@ -144,8 +144,8 @@ theorem C07_same_as_before (R : ViewRel) (c : Cfg) (h1 h2 : List Sched) (ro : Bo
   refine ⟨r, hr, ?_⟩
   rw [hd, hcm] at hv
   obtain ⟨hwf, hinv⟩ := init_inv R c
-  have hok1 : HistOk R (MState.init c).p h1 := by
-    have := HistOk_take R _ (h1 ++ h2) h1.length hok
+  have hok1 : SchedHistOk R (MState.init c).p h1 := by
+    have := SchedHistOk_take R _ (h1 ++ h2) h1.length hok
     simpa using this
   obtain ⟨_, hI1⟩ := exec_inv R (MState.init c) h1 hwf hinv hok1
   exact R.trans _ _ _ hv (R.symm _ _ hI1.logic.view)
@@ -153,7 +153,7 @@ theorem C07_same_as_before (R : ViewRel) (c : Cfg) (h1 h2 : List Sched) (ro : Bo
 /-- C07: a read-only `Open` of a closed directory without orphan tables performs exactly one
     operation, the directory fsync — nothing that creates, changes, renames or deletes a file. -/
 theorem C07_ro_pure (R : ViewRel) (c : Cfg) (h : List Sched)
-    (hok : HistOk R (MState.init c).p h)
+    (hok : SchedHistOk R (MState.init c).p h)
     (hc : ((MState.init c).exec h).p.curOpen = false) (hi : ((MState.init c).exec h).p.imm = [])
     (hno : ∀ n, (((MState.init c).exec h).fs.file (.sst n)).isSome → (aget n ((MState.init c).exec h).p.tset).isSome) :
     ∃ r, recover true (crashKill ((MState.init c).exec h).fs) = .ok r ∧ ∀ op ∈ r.ops, op.mutating = false := by
